@@ -322,6 +322,86 @@ def build():
                          "as their enum, font family through the name table, alignment, the three indents), whatever the archive held and whatever the value")
     plan.target(Contract("model:_NumbersModel.update_paragraph_style", entry=ups_entry, ensures=[ups_post], safety="fork", search=srch("search_styles")))
 
+    # ------------------------------------------------------------------ Table.set_cell_border: every cell along the stroke is updated
+    # For one side and an unmerged starting cell: the stored strokes are loaded, the stroke is recorded once with its origin, side and
+    # length, and then EXACTLY the cells origin .. origin+length-1 along the stroke's direction are updated (k-th update at offset k), each
+    # with the same side and border - whatever the table's size (cells beyond the table are the model's concern: cell_for_stroke).
+    class RowsT(Custom):
+        def __init__(self, cell):
+            self.cell = cell
+
+        def getitem(self, ex, idx, line):
+            outer = self
+
+            class RowT(Custom):
+                def getitem(self_, ex_, idx_, line_):
+                    return outer.cell
+            return RowT()
+
+    def tsb_entry(side):
+        def entry(ex):
+            row, col, length = ex.fresh("int", "row"), ex.fresh("int", "col"), ex.fresh("int", "length")
+            ex.assume(z3.And(T(row) >= 0, T(col) >= 0))
+            border = PObj("Border", {"width": ex.fresh("float", "width")})
+            cell = PObj("NumberCell", {"is_merged": False, "size": (1, 1)})
+            model = PObj("ModelTSB", {"g_log": []})
+            table = PObj("TableTSB", {"_model": model, "_table_id": ex.fresh("int", "table_id"), "_data": RowsT(cell), "num_rows": ex.fresh("int", "num_rows"),
+                                      "num_cols": ex.fresh("int", "num_cols"), "g_coords": (row, col, side, border, length)})
+            ex.assume(z3.And(T(table.fields["num_rows"]) > T(row), T(table.fields["num_cols"]) > T(col)))
+            return {"self": table, "args": (), "g_row": row, "g_col": col, "g_len": length, "g_border": border, "g_model": model}
+        return entry
+    mm_ = ctx.method_models
+    mm_[("TableTSB", "_validate_cell_coords")] = lambda ex, o, a, k, l: o.fields["g_coords"]
+    mm_[("ModelTSB", "extract_strokes")] = lambda ex, o, a, k, l: o.fields["g_log"].append(("extract", a))
+    mm_[("ModelTSB", "add_stroke")] = lambda ex, o, a, k, l: o.fields["g_log"].append(("stroke", a))
+    CNT = {}
+
+    def tsb_update(ex, o, a, k, l):
+        o.fields["g_last"] = a
+        o.fields["g_count"] = wrap(T(o.fields.get("g_count", 0)) + 1)
+    mm_[("ModelTSB", "set_cell_border")] = tsb_update
+
+    def tsb_havoc(ex, env):
+        m = ex.entry_env["g_model"].fields
+        m["g_count"] = ex.fresh("int", "updates")
+        m["g_last"] = tuple(ex.fresh("int", f"last{i}") for i in range(3)) + (None, None)
+
+    def tsb_inv(ex, env):
+        m = ex.entry_env["g_model"].fields
+        return T(m.get("g_count", 0)) == T(env["_k"])
+
+    def tsb_step(side):
+        def st(ex, env):
+            m = ex.entry_env["g_model"].fields
+            last = m["g_last"]
+            k = T(env["_k"])
+            r0, c0 = T(ex.entry_env["g_row"]), T(ex.entry_env["g_col"])
+            want_r, want_c = (r0, c0 + k) if side in ("top", "bottom") else (r0 + k, c0)
+            ok_obj = last[3] == side and last[4] is ex.entry_env["g_border"]
+            return z3.And(z3.BoolVal(bool(ok_obj)), T(last[0]) == T(env["self"].fields["_table_id"]), T(last[1]) == want_r, T(last[2]) == want_c)
+        return st
+
+    def tsb_post(side):
+        def post(ex, env):
+            m = env["g_model"].fields
+            log = m["g_log"]
+            ok = len(log) == 2 and log[0][0] == "extract" and log[1][0] == "stroke"
+            if not ok:
+                return z3.BoolVal(False)
+            a = log[1][1]
+            ln = T(env["g_len"])
+            stroke_ok = z3.And(T(a[0]) == T(env["self"].fields["_table_id"]), T(a[1]) == T(env["g_row"]), T(a[2]) == T(env["g_col"]), z3.BoolVal(a[3] == side),
+                               z3.BoolVal(a[4] is env["g_border"]), T(a[5]) == ln)
+            return z3.And(stroke_ok, T(m.get("g_count", 0)) == z3.If(ln > 0, ln, 0))
+        post.__name__ = ("the stroke is recorded once (origin, side, border, length) after the stored strokes are loaded, and exactly `length` cells are "
+                         "updated - the k-th at offset k along the stroke, with the same side and border")
+        return post
+    for side_ in ("top", "right", "bottom", "left"):
+        plan.target(Contract("document:Table.set_cell_border", label=side_, entry=tsb_entry(side_), ensures=[tsb_post(side_)], safety="fork",
+                             search=srch("search_borders"),
+                             loops={2: LoopSpec([tsb_inv], index="_k", havoc=[tsb_havoc], steps=[tsb_step(side_)]),
+                                    3: LoopSpec([tsb_inv], index="_k", havoc=[tsb_havoc], steps=[tsb_step(side_)])}))
+
     def native_ground(fn):
         def run():
             from pyvc.run import native_call
